@@ -119,8 +119,8 @@ func main() {
 			}
 			jobs = append(jobs, func() { e.runJSONForm(jf1) })
 		}
-		if !t.Quick() && e.only == nil {
-			for _, c := range e.corpus() {
+		if e.only == nil {
+			for _, c := range e.corpus(t.Pick(1, 8)) {
 				c := c
 				for _, f := range sf {
 					f := f
@@ -134,9 +134,9 @@ func main() {
 	})
 }
 
-// corpus picks input files for the thorough tier (deterministic in the seed): files of
+// corpus picks n extra input files (deterministic in the seed; quick 1, thorough 8): files of
 // pkg/testdata and pkg/samples/basic that the CLI validates without a password.
-func (e *env) corpus() []string {
+func (e *env) corpus(n int) []string {
 	var all []string
 	for _, g := range []string{"pkg/testdata/*.pdf", "pkg/samples/basic/*.pdf"} {
 		m, _ := filepath.Glob(filepath.Join(vk.RepoDir(), g))
@@ -148,7 +148,7 @@ func (e *env) corpus() []string {
 	var out []string
 	scratch := e.t.Scratch()
 	for _, pth := range all {
-		if len(out) == 8 {
+		if len(out) == n {
 			break
 		}
 		st, err := os.Stat(pth)
@@ -160,7 +160,7 @@ func (e *env) corpus() []string {
 			out = append(out, pth)
 		}
 	}
-	e.t.Extra("thorough_corpus", out)
+	e.t.Extra("corpus_inputs", out)
 	return out
 }
 
@@ -604,7 +604,7 @@ func (e *env) runFailures(f sform) {
 		{name: "missing-file", in: "missing.pdf", out: sout, must: true},
 		{name: "garbage-stdin", in: "-", stdin: []byte("this is not a PDF document\n%%EOF\n"), out: sout, must: true},
 		{name: "empty-stdin", in: "-", stdin: []byte{}, out: sout, must: true},
-		{name: "truncated-stdin", in: "-", stdin: good[:len(good)*6/10], out: sout},
+		{name: "truncated-stdin", in: "-", stdin: good[:len(good)*(30+t.RNGi("truncate/"+f.name, 0).IntN(65))/100], out: sout},
 	}
 	if hasPlaceholder(f.args, "{out}") && !f.outViaDir && f.kind != dirRes {
 		cases = append(cases, fcase{name: "refused-overwrite", in: "-", stdin: good, out: out, plant: true, must: true})
@@ -799,7 +799,7 @@ func (e *env) runJSONForm(jf jform) {
 				}
 			default:
 				if why := oneJSON(r.Stdout); why != "" {
-					t.Violate("json="+jf.name+"/conf="+s.name+"/class="+strings.ReplaceAll(why, " ", "-"),
+					t.Violate("json="+strings.ReplaceAll(jf.leaf, " ", "/")+"/class="+strings.ReplaceAll(why, " ", "-"),
 						fmt.Sprintf("%q (%s, input via %s): stdout is not exactly one JSON value: %s; head %q tail %q", args, s.name, mode, why, clirun.Clip(r.Stdout, 80), tail(r.Stdout, 80)), rc)
 				} else {
 					okAnywhere = true
@@ -827,7 +827,7 @@ func (e *env) runJSONForm(jf jform) {
 			r := e.run(b, args, fc.stdin, nil)
 			t.Eval("C41/json/" + jf.name + "/fail/" + fc.name)
 			if !killed(r) && r.Exit == 0 {
-				t.Violate("json="+jf.name+"/fail="+fc.name+"/class=exit0", fmt.Sprintf("%q exits 0", args), rcOf("json/"+jf.name, "fail:"+fc.name, "", args, r))
+				t.Violate("json="+strings.ReplaceAll(jf.leaf, " ", "/")+"/fail="+fc.name+"/class=exit0", fmt.Sprintf("%q exits 0", args), rcOf("json/"+jf.name, "fail:"+fc.name, "", args, r))
 			} else if !killed(r) {
 				t.Count("failed_ok/json-"+fc.name, 1)
 			}
